@@ -33,6 +33,13 @@ def build(P):
                                              "result == (self.value is not None and self.value " + (">" if iou else "<") + " threshold_value)")))
     # ---------------------------------------------------------------- is_result_correct is the statement's definition (same tasks as C03)
     C03.correctness_tasks(P)
+    # frame level: PassFailResult.evaluate judges 3-D pairs (FP validation included) by plane distance and 2-D pairs by IoU, at the configured thresholds
+    # (C03's task, re-verified here: a wrong mode turns "looser" upside down)
+    n0_ = len(P.tasks)
+    mo_ = P.min_obligations
+    C03.build(P)
+    P.tasks[n0_:] = [t for t in P.tasks[n0_:] if t.name.startswith(("PassFailResult.evaluate", "get_positive_objects", "get_negative_objects"))]
+    P.min_obligations = mo_
     # ---------------------------------------------------------------- which results AP counts as TP: exactly the correct ones at the label's threshold, whatever number type it has
     import contracts.C04 as C04
     C04.tp_fp_tasks(P, models=False)
